@@ -4,7 +4,7 @@ from vlib import std, hbuild, corr
 
 PID = "C51"
 META = {
-    "text": "Theorems (Properties_C51.v, closed under the global context) state for ALL operation histories "
+    "text": "Theorems (Properties_C51.v, 7, closed under the global context) state for ALL operation histories "
             "(get/add/add-with-default-TTL/del/setMemLimit/arbitrary clock changes, any capacity, any key and value "
             "sizes, any TTL incl. 0 and negative, for every Value type, MemoryUsedBy function and sizeof constants) that a "
             "line-by-line model of ClpMap (entry list + first-match index, uint64 counters with wrap-around, the "
@@ -12,7 +12,9 @@ META = {
             "(keyed list with deadlines; lookup=find, removal=filter, eviction=longest fitting MRU prefix; memory = sum "
             "of sizes), that memoryUsed() equals the sum of the stored sizes and never exceeds memLimit(), that no "
             "assert() fires and the loop bound is never hit, that keys stay unique, and that every operation removes, "
-            "besides the addressed key, only a least-recently-used suffix, and no more of it than needed. The model is "
+            "besides the addressed key, only a least-recently-used suffix, and no more of it than needed; that every entry "
+            "is accounted at exactly key length + MemoryUsedBy(value) + the two sizeof overheads; and that get() serves "
+            "exactly the stored entry of that key while its expiry time (saturating now+ttl) has not passed. The model is "
             "tied to the code by differential runs of the extracted model against the real template compiled from the "
             "working tree (UBSan), on the same histories, comparing every result, memoryUsed(), entries() and the "
             "final LRU traversal (key, value, expires, memCounted).",
